@@ -1,11 +1,14 @@
 package checks
 
 import (
+	"context"
 	"encoding/json"
 	"fmt"
 	"math/rand"
 	"os"
+	"os/exec"
 	"path/filepath"
+	"strings"
 	"time"
 
 	"google.golang.org/grpc/codes"
@@ -26,11 +29,11 @@ type Up4FaultParams struct {
 	AgentBin string `json:"agentBin"`
 	N4Addr   string `json:"n4"`
 	Seed     int64  `json:"seed"`
-	Shapes   int    `json:"shapes"`   // session shapes; for each: every request kind x every position k of the failing write
-	Random   int    `json:"random"`   // afterwards: random histories with this many steps, a fault in every third request
-	Crowd    int    `json:"crowd"`    // sessions kept live in the background (they hold identifiers a wrong release would hand out again)
-	Drain    int    `json:"drain"`    // at the end: establish this many sessions at once so that recycled identifiers come round
-	ModeMix  int    `json:"modeMix"`  // 0: alternate rpc / update faults, 1: rpc only, 2: update only
+	Shapes   int    `json:"shapes"`  // session shapes; for each: every request kind x every position k of the failing write
+	Random   int    `json:"random"`  // afterwards: random histories with this many steps, a fault in every third request
+	Crowd    int    `json:"crowd"`   // sessions kept live in the background (they hold identifiers a wrong release would hand out again)
+	Drain    int    `json:"drain"`   // at the end: establish this many sessions at once so that recycled identifiers come round
+	ModeMix  int    `json:"modeMix"` // 0: alternate rpc / update faults, 1: rpc only, 2: update only
 	// Crowded: the background sessions all have a session QER and one flow (they hold many session-meter cells), and only
 	// establishments are faulted: an application-meter cell released into the session-meter pool meets a live holder
 	Crowded bool `json:"crowded"`
@@ -261,6 +264,10 @@ func C15(c *core.Ctx) {
 		c.AddCount("negative_controls_found", 1)
 	}
 
+	if c.Thorough() {
+		apalacheRefCounted(c)
+	}
+
 	res := runE2EShards(c, "e2e-up4-faults", shards, "TraceE2E_C15.cfg", func(i int) interface{} {
 		d, tr := shardDir(c, i)
 		pr := Up4FaultParams{Dir: d, Trace: tr, AgentBin: filepath.Join(c.BinDir, "verif-agent"), N4Addr: n4For(i), Seed: c.Seed*1000 + 700 + int64(i),
@@ -272,4 +279,67 @@ func C15(c *core.Ctx) {
 		return pr
 	})
 	judgeE2E(c, res, map[string]bool{"InEnvelope": true, "Up4Envelope": true})
+}
+
+// apalacheRefCounted discharges the inductive invariant of RefCounted with Apalache (thorough tier): IndInv holds
+// initially, is preserved by every step from ANY state satisfying it (so for behaviours of any length, which TLC's
+// complete graph covers only for the reachable states of the bounded constants), implies the invariants TLC checks,
+// and is NOT preserved with the original release order (negative control). A missing or failing tool makes this part
+// inconclusive, never a violation: the model gives no verdict about the code.
+func apalacheRefCounted(c *core.Ctx) {
+	bin, err := exec.LookPath("apalache-mc")
+	if err != nil {
+		c.AddCount("apalache_skipped", 1)
+		return
+	}
+
+	dir := filepath.Join(c.Scratch, "apalache")
+	_ = os.MkdirAll(dir, 0o755)
+
+	for _, f := range []string{"RefCounted.tla", "apalache/RefCountedInd.tla"} {
+		b, err := os.ReadFile(filepath.Join(c.SpecDir, f))
+		if err != nil {
+			c.Inconclusive("apalache: %v", err)
+			return
+		}
+
+		_ = os.WriteFile(filepath.Join(dir, filepath.Base(f)), b, 0o644)
+	}
+
+	run := func(cinit, init, inv string, length int) (bool, string) {
+		ctx, cancel := context.WithTimeout(context.Background(), 10*time.Minute)
+		defer cancel()
+
+		cmd := exec.CommandContext(ctx, bin, "check", "--cinit="+cinit, "--init="+init, "--inv="+inv, fmt.Sprintf("--length=%d", length),
+			"--out-dir="+filepath.Join(dir, "out"), "RefCountedInd.tla")
+		cmd.Dir = dir
+		out, _ := cmd.CombinedOutput()
+		s := string(out)
+
+		return strings.Contains(s, "The outcome is: NoError"), s
+	}
+
+	type step struct {
+		cinit, init, inv string
+		length           int
+		wantOK           bool
+		what             string
+	}
+
+	for _, st := range []step{
+		{"ConstInit", "Init", "IndInv", 0, true, "initial states satisfy IndInv"},
+		{"ConstInit", "IndInit", "IndInv", 1, true, "IndInv is preserved by every step"},
+		{"ConstInit", "IndInit", "Implied", 0, true, "IndInv implies the invariants TLC checks"},
+		{"ConstInitOld", "IndInit", "IndInv", 1, false, "negative control: the original release order does not preserve IndInv"},
+	} {
+		ok, out := run(st.cinit, st.init, st.inv, st.length)
+		if ok != st.wantOK {
+			keep := c.SaveReplay("apalache-"+st.inv+"-"+st.cinit, nil, map[string][]byte{"apalache.out": []byte(out)})
+			c.Inconclusive("apalache: %s - unexpected outcome (output kept in %s)", st.what, keep)
+
+			return
+		}
+
+		c.AddCount("apalache_obligations", 1)
+	}
 }
